@@ -75,6 +75,15 @@ def expected(t, ns, r, ew, dns, dew):
 
 
 SOURCES = ['config', 'none', 'parse_kw', 'find_kw', 'master']
+# (text after the Twp/Rge, a word of it that must survive verbatim, expected description of the one tract)
+FOLLOWS = [
+    (', Excepting the road, Sec 14: NE/4', 'Excepting', 'NE/4'),
+    (' Wetland tract, Sec 14: NE/4', 'Wetland', 'NE/4'),
+    (' Easement Sec 14: NE/4', 'Easement', 'NE/4'),
+    (' E/2 of Sec 14', 'E/2', 'E/2'),
+    ('\nW/2 of Sec 14', 'W/2', 'W/2'),
+    (', W½ of Sec 14', 'W½', 'W½'),
+]
 
 
 def observe(text, source, dns, dew):
@@ -140,6 +149,32 @@ def judge(acc, t, ns, r, ew, sname, text, source, dns, dew, seen):
         acc.violation('fixed_twprge_warning', f"C08:fixed_twprge_warning:{key}", case, got=o['fixed'],
                       exp='present' if missing else 'absent')
         return
+    if source == 'config' and sname in ('T-R', 'Township, Range', 'T R', 'Twp. Rge.') and (ew is None or (dns, dew) == (None, None)):
+        # the words that follow the Twp/Rge never supply (or lose letters to) a missing direction
+        cfg = ','.join(x for x in (dns, dew) if x) or None
+        for follow, word, want_desc in FOLLOWS:
+            ftext = text + follow
+            fkey = f"follow|{dns}|{dew}|{ftext}"
+            if fkey in seen:
+                continue
+            seen.add(fkey)
+            fcase = dict(case, text=ftext, follow=follow)
+            try:
+                d = _p.PLSSDesc(ftext, config=cfg)
+                got = (d.pp_desc, [x.trs for x in d.tracts], [x.desc for x in d.tracts])
+            except Exception as ex:  # noqa
+                acc.case(fkey, 'EXC')
+                acc.violation('exception', f"C08:exception:{fkey}", fcase, got=f"{type(ex).__name__}: {ex}")
+                continue
+            acc.case(fkey, list(got))
+            acc.states += 1
+            if not got[0].startswith(want_pp) or got[0][len(want_pp):len(want_pp) + 1].isalnum() or got[1] != [want_trs + '14'] \
+                    or word not in got[0]:
+                acc.violation('direction_from_following_word', f"C08:direction_from_following_word:{fkey}", fcase, got=list(got),
+                              exp=[want_pp + ' ... ' + word + ' ...', [want_trs + '14']],
+                              note=f"the word {word!r} after the Twp/Rge must stay intact; a missing direction comes from the defaults")
+            else:
+                acc.guard('follow_ok')
     if missing:
         acc.guard('direction_filled')
         if (ns is None and dns == 's') or (ew is None and dew == 'e'):
@@ -416,7 +451,7 @@ def replay(case):
 def guards(info):
     g = info['guards']
     out = []
-    for name in ('direction_filled', 'non_master_default_used', 'explicit_kept_against_default', 'ocr_scrubbed', 'two_ok', 'same_twprge_twice_ok', 'reuse_ok'):
+    for name in ('direction_filled', 'non_master_default_used', 'explicit_kept_against_default', 'ocr_scrubbed', 'two_ok', 'same_twprge_twice_ok', 'reuse_ok', 'follow_ok'):
         if not g.get(name):
             out.append(f"never observed: {name}")
     return out
